@@ -8,6 +8,7 @@
 import CB.Props.C02
 import CB.Lemmas.GenBitsDiv
 import CB.Lemmas.GenDivLimbLoops
+import CB.Lemmas.GenDivLimbVartime
 namespace CB.P02G
 open CB CB.Div
 
@@ -243,5 +244,51 @@ example : Gen.DivLimbLoops.Uint.rem_limb 3 [5#64, 7#64, 1#64] 11#64 = 10#64 := b
 example : Gen.DivLimbLoops.rem_limb_with_reciprocal_wide 1 ([5#64], [7#64]) (Gen.DivLimb.Reciprocal.new 11#64) = 7#64 := by
   decide +kernel
 example : Gen.DivLimbLoops.MulRem.mul_rem (~~~0#64) (~~~0#64) 1000003#64 = 301656#64 := by decide +kernel
+
+/-! ## T02.G3 — the private sub-limb shifts of `div_rem_vartime`: `Uint::shl_limb_vartime`, `Uint::shr_limb_vartime`
+(src/uint/div.rs; CB/Gen/DivLimbLoops.lean, namespace `CB.Gen.DivLimbLoops.Vartime`; bridges in CB/Lemmas/GenDivLimbVartime.lean) -/
+
+/-- the model's `shlLimbVartime` / `shrLimbVartime` (on which the normalisation and un-normalisation steps of
+    `div_rem_vartime` / `rem_wide_vartime` are proved) ARE the translated source, for every limb count, every
+    `1 ≤ limbs_num ≤ LIMBS` (for `limbs_num = 0` the source panics: `limbs_num - 1`) and every shift below 64 -/
+theorem limb_vartime_shifts_model_is_translated_source :
+    (∀ (a : List (BitVec 64)) (s : BitVec 32) (k : Nat), s.toNat < 64 → 1 ≤ k → k ≤ a.length →
+      shlLimbVartime (GenShifts.nats a) s.toNat k =
+        (GenShifts.nats (Gen.DivLimbLoops.Vartime.shl_limb_vartime a.length a s k).1,
+         (Gen.DivLimbLoops.Vartime.shl_limb_vartime a.length a s k).2.toNat)) ∧
+    (∀ (a : List (BitVec 64)) (s : BitVec 32) (k : Nat), s.toNat < 64 → 1 ≤ k → k ≤ a.length →
+      shrLimbVartime (GenShifts.nats a) s.toNat k =
+        GenShifts.nats (Gen.DivLimbLoops.Vartime.shr_limb_vartime a.length a s k)) :=
+  ⟨GenDivLimbVartime.shlLimbVartime_bridge, GenDivLimbVartime.shrLimbVartime_bridge⟩
+
+/-- `shl_limb_vartime(shift, LIMBS)` of the source over all limbs: `result + 2^(64·L)·carry = a·2^shift`, `carry < 2^shift` -/
+theorem src_shl_limb_vartime_full (a : List (BitVec 64)) (s : BitVec 32) (hs : s.toNat < 64) (hne : a ≠ []) :
+    val (GenShifts.nats (Gen.DivLimbLoops.Vartime.shl_limb_vartime a.length a s a.length).1) +
+        B ^ a.length * (Gen.DivLimbLoops.Vartime.shl_limb_vartime a.length a s a.length).2.toNat =
+      val (GenShifts.nats a) * 2 ^ s.toNat ∧
+    (Gen.DivLimbLoops.Vartime.shl_limb_vartime a.length a s a.length).2.toNat < 2 ^ s.toNat := by
+  have hpos : 1 ≤ a.length := by
+    cases a with
+    | nil => exact absurd rfl hne
+    | cons x xs => simp
+  have hb := GenDivLimbVartime.shlLimbVartime_bridge a s a.length hs hpos (Nat.le_refl _)
+  have ⟨h1, _, _, h4⟩ := shlLimbVartime_full hs (GenShifts.nats_WF a) (a := GenShifts.nats a) (by simpa using hne)
+  rw [GenShifts.nats_length, hb] at h1 h4
+  exact ⟨h1, h4⟩
+
+/-- `shr_limb_vartime(shift, limbs_num)` of the source on a value that fits its low `limbs_num` limbs: `⌊a / 2^shift⌋` -/
+theorem src_shr_limb_vartime_low (a : List (BitVec 64)) (s : BitVec 32) (k : Nat) (hs : s.toNat < 64) (hk1 : 1 ≤ k)
+    (hk : k ≤ a.length) (hz : val ((GenShifts.nats a).drop k) = 0) :
+    val (GenShifts.nats (Gen.DivLimbLoops.Vartime.shr_limb_vartime a.length a s k)) = val (GenShifts.nats a) / 2 ^ s.toNat := by
+  have hb := GenDivLimbVartime.shrLimbVartime_bridge a s k hs hk1 hk
+  have ⟨h1, _, _⟩ := shrLimbVartime_low hs (GenShifts.nats_WF a) (a := GenShifts.nats a) (m := k)
+    (by rw [GenShifts.nats_length]; exact hk) hz
+  rw [hb] at h1
+  exact h1
+
+example : Gen.DivLimbLoops.Vartime.shl_limb_vartime 3 [~~~0#64, 1#64, 0#64] 4#32 2 = ([~~~0#64 <<< 4, 31#64, 0#64], 0#64) := by
+  decide +kernel
+example : Gen.DivLimbLoops.Vartime.shr_limb_vartime 3 [5#64, 3#64, 0#64] 1#32 2 = ([(1#64 <<< 63) + 2#64, 1#64, 0#64]) := by
+  decide +kernel
 
 end CB.P02G
